@@ -438,6 +438,37 @@ theorem ncmpidiff_multirank_verdict (nprocs : Nat) (hn : 1 ≤ nprocs) (shape : 
     (∃ idx, inShape idx shape = true ∧ d idx = true) :=
   multirank_verdict nprocs hn shape d
 
+/-! ## ncoffsets -r -/
+
+/-- `offsets_records_are_layout`: the r-th (start, end) pair `ncoffsets -r` prints for a record variable is the
+    address `begin + recsize * r` the library layout gives record r (the offset `absFile` — cdfdiff, ncmpidiff —
+    reads that record at), for every record r < numrecs and any recsize; and exactly numrecs pairs are printed. -/
+theorem offsets_records_are_layout (h : Hdr) (recsize : Nat) (file : Bytes) (i : Nat) (v : Var) (sh : List Nat) (lv : LVar) (r : Nat)
+    (hr : r < h.numrecs) (hv : h.vars[i]? = some v) (hl : (absFile h recsize file).vars[i]? = some lv) (hrec : lv.isRec = true) :
+    (offsetsRecs v sh recsize h.numrecs).length = h.numrecs ∧
+    ∃ st en, (offsetsRecs v sh recsize h.numrecs)[r]? = some (st, en) ∧ st = v.begin + recsize * r ∧
+      ∃ n, lv.data r = rdAt file st n := by
+  refine ⟨offsetsRecs_length v sh recsize h.numrecs, _, _, offsetsRecs_get v sh recsize h.numrecs r hr, rfl, ?_⟩
+  unfold absFile at hl
+  simp only [List.getElem?_map, hv, Option.map_some, Option.some.injEq] at hl
+  subst hl
+  simp only [] at hrec ⊢
+  rw [hrec]
+  exact ⟨_, rfl⟩
+
+/-- the packing rule the report relies on (compute_var_shape / ncmpii_NC_computeshapes): one record variable ⇒ the
+    record size is its unpadded size -/
+theorem offsets_recsize_packing (st : CvsState) (fb flen fpacked : Nat) (hf : st.firstRec = some (fb, flen, fpacked))
+    (hb : st.beginRec ≤ fb) : cvsRec st = .ok (fb, if st.recsize = flen then fpacked else st.recsize) :=
+  cvsRec_packing st fb flen fpacked hf hb
+
+/-- a CDF-1 file with one fixed-size variable and ONE record variable of 3 shorts: records are 6 bytes apart, not 8 -/
+def oneRecVarHdr : Schema :=
+  { fmt := .cdf1, numrecs := 3, dims := [{ name := [0x74], size := 0 }, { name := [0x78], size := 3 }], gatts := [],
+    vars := [{ name := [0x66], dimids := [1], atts := [], xtype := .int, vsize := 12, begin := 200 },
+             { name := [0x72], dimids := [0, 1], atts := [], xtype := .short, vsize := 8, begin := 212 }] }
+example : (postPass oneRecVarHdr).toOption.map (·.recsize) = some 6 := by decide
+
 /-- on one process the box is the whole variable -/
 example : rankBox 1 0 [5, 3] = [(0, 5), (0, 3)] ∧ rankBox 2 0 [5, 3] = [(0, 3), (0, 3)] ∧ rankBox 2 1 [5, 3] = [(3, 2), (0, 3)] ∧
     rankBox 4 2 [3, 9] = [(0, 3), (5, 2)] := by decide
@@ -447,6 +478,7 @@ def obligations : List String := [
   "validate_canonical", "validate_magic", "validate_sound_repaired", "repaired_array_tag",
   "cdfdiff_repaired_iff_logical_eq", "ncmpidiff_repaired_iff_logical_eq",
   "ncmpidiff_partition_covers", "ncmpidiff_block_inside", "ncmpidiff_every_element_compared", "ncmpidiff_multirank_verdict",
+  "offsets_records_are_layout", "offsets_recsize_packing",
   "diff_refl", "diff_complete", "diff_iff_logical_eq_counterexample_cdfdiff", "diff_iff_logical_eq_counterexample_ncmpidiff",
   "diff_iff_logical_eq_partial", "cdfdiff_iff_logical_eq", "diff_symm_counterexample_cdfdiff", "diff_symm_partial",
   "diff_layout_invariant", "diff_layout_invariant_shift", "diff_detects_value_edit", "diff_detects_attribute_edit",
